@@ -26,6 +26,14 @@ pub open spec fn nat_to_le(v: nat, len: nat) -> Seq<u8>
     }
 }
 
+/// bytes of an optional slice (None = empty)
+pub open spec fn opt_bytes(o: Option<&[u8]>) -> Seq<u8> {
+    match o {
+        Some(s) => s@,
+        None => Seq::<u8>::empty(),
+    }
+}
+
 pub open spec fn zeros(len: nat) -> Seq<u8> {
     Seq::new(len, |i: int| 0u8)
 }
@@ -233,6 +241,26 @@ pub proof fn lemma_increment_final(post: Seq<u8>, orig: Seq<u8>, carry: nat)
         assert(le_nat(orig) + 1 == le_nat(post) + m);
         assert((le_nat(post) + m) % m == le_nat(post)) by (nonlinear_arith)
             requires le_nat(post) < m, m > 0;
+    }
+}
+
+pub proof fn lemma_nat_to_le_of_le_nat(s: Seq<u8>)
+    ensures
+        nat_to_le(le_nat(s), s.len()) =~= s,
+    decreases s.len(),
+{
+    if s.len() == 0 {
+    } else {
+        let t = s.subrange(1, s.len() as int);
+        lemma_nat_to_le_of_le_nat(t);
+        let v = le_nat(s);
+        assert(v == s[0] as nat + 256 * le_nat(t));
+        assert(v % 256 == s[0] as nat && v / 256 == le_nat(t)) by (nonlinear_arith)
+            requires
+                v == s[0] as nat + 256 * le_nat(t),
+                (s[0] as nat) < 256,
+        ;
+        assert(nat_to_le(v, s.len()) =~= seq![(v % 256) as u8] + nat_to_le(v / 256, (s.len() - 1) as nat));
     }
 }
 
